@@ -769,6 +769,11 @@ func subDebugDialer() mon.Sub {
 					if mode&2 != 0 {
 						det["on_response"] = string(gotResp)
 						if respCalls != 1 || !bytes.Equal(gotResp, headSent) {
+							if _, perr := http.ReadResponse(bufio.NewReader(bytes.NewReader(headSent)), nil); perr != nil && len(headSent) > 0 && cut < 0 {
+								// net/http cannot parse this (complete) response although the dialer itself handles it
+								det["net_http_error"] = perr.Error()
+								sigKind = "response-net-http-cannot-parse"
+							}
 							c.Fail("debug-dialer/on-response/"+sigKind, fmt.Sprintf("OnResponse got %d bytes, the response (head + Content-Length body) has %d", len(gotResp), len(headSent)), det)
 							return
 						}
